@@ -34,13 +34,21 @@ func (interp *Interpreter) importSrc(rPath, importPath string, skipTest bool) (s
 			rPath = "."
 		}
 		dir = filepath.Join(filepath.Dir(interp.name), rPath, importPath)
-	} else if dir, rPath, err = interp.pkgDir(interp.context.GOPATH, rPath, importPath); err != nil {
-		// Try again, assuming a root dir at the source location.
-		if rPath, err = interp.rootFromSourceLocation(); err != nil {
-			return "", err
+	} else {
+		if rPath == mainID && interp.name != "" {
+			// The imports of a main file are resolved from its location, if it lies in GOPATH/src.
+			if rPath, err = interp.rootFromSourceLocation(); err != nil {
+				rPath = ""
+			}
 		}
 		if dir, rPath, err = interp.pkgDir(interp.context.GOPATH, rPath, importPath); err != nil {
-			return "", err
+			// Try again, assuming a root dir at the source location.
+			if rPath, err = interp.rootFromSourceLocation(); err != nil {
+				return "", err
+			}
+			if dir, rPath, err = interp.pkgDir(interp.context.GOPATH, rPath, importPath); err != nil {
+				return "", err
+			}
 		}
 	}
 
@@ -181,13 +189,22 @@ func (interp *Interpreter) rootFromSourceLocation() (string, error) {
 	if sourceFile == DefaultSourceName {
 		return "", nil
 	}
-	wd, err := os.Getwd()
-	if err != nil {
-		return "", err
+	pkgDir := filepath.Dir(sourceFile)
+	srcDir := filepath.Join(interp.context.GOPATH, "src")
+	if filepath.IsAbs(srcDir) && !filepath.IsAbs(pkgDir) {
+		// A relative file name is relative to the working directory, unless GOPATH is relative
+		// too: then both are names in the same (possibly virtual) filesystem.
+		wd, err := os.Getwd()
+		if err != nil {
+			return "", err
+		}
+		pkgDir = filepath.Join(wd, pkgDir)
 	}
-	pkgDir := filepath.Join(wd, filepath.Dir(sourceFile))
-	root := strings.TrimPrefix(pkgDir, filepath.Join(interp.context.GOPATH, "src")+"/")
-	if root == wd {
+	if pkgDir == srcDir {
+		return "", nil
+	}
+	root := strings.TrimPrefix(pkgDir, srcDir+"/")
+	if root == pkgDir {
 		return "", fmt.Errorf("package location %s not in GOPATH", pkgDir)
 	}
 	return root, nil
